@@ -12,7 +12,10 @@
 (* The spawn options place the child: plain = the parent's group and       *)
 (* session, grouped = its own group in the parent's session, session = its *)
 (* own session (and group).  The spawn hook's environment variable and     *)
-(* working directory must be the child's.                                  *)
+(* working directory must be the child's.  None of this depends on which   *)
+(* control made the job spawn: the first start, a restart, a graceful      *)
+(* restart, a try-restart, or the respawn after a graceful try-restart     *)
+(* whose process ended within its grace period (`via`).                    *)
 (***************************************************************************)
 EXTENDS Integers, Sequences, FiniteSets, TLC, Json
 
@@ -38,9 +41,15 @@ Placement(mode) ==
       [] mode = "grouped" -> [own_group |-> TRUE,  own_session |-> FALSE]
       [] mode = "session" -> [own_group |-> TRUE,  own_session |-> TRUE]
 
-VARIABLES cmd, mode, built, pc
+Vias == {"start", "restart", "restart_with_signal", "try_restart", "try_restart_with_signal"}
+\* (every way of respawning for the short commands, the first start for all)
+ViasFor(c) == IF (c.kind = "exec" /\ Len(c.args) <= 1)
+                 \/ (c.kind = "shell" /\ c.args = <<>> /\ Len(c.opts) <= 1 /\ c.command = "T1")
+              THEN Vias ELSE {"start"}
 
-Init == cmd \in Cmds /\ mode \in Modes /\ built = <<>> /\ pc = "start"
+VARIABLES cmd, mode, via, built, pc
+
+Init == cmd \in Cmds /\ mode \in Modes /\ via \in ViasFor(cmd) /\ built = <<>> /\ pc = "start"
 
 \* to_spawnable(): the argument vector is pushed part by part
 Build ==
@@ -50,7 +59,7 @@ Build ==
          [] pc = "progopt" -> /\ built' = (IF cmd.progopt = "-" THEN built ELSE Append(built, cmd.progopt)) /\ pc' = "command"
          [] pc = "command" -> /\ built' = Append(built, cmd.command) /\ pc' = "args"
          [] pc = "args" -> /\ built' = built \o cmd.args /\ pc' = "done"
-    /\ UNCHANGED <<cmd, mode>>
+    /\ UNCHANGED <<cmd, mode, via>>
 
 AssemblyIsArgv == pc = "done" => built = Argv(cmd)
 \* nothing is split or merged: one element per configured token
@@ -59,5 +68,5 @@ LengthPreserved ==
                                 + (IF cmd.kind = "shell" THEN 1 + (IF cmd.progopt = "-" THEN 0 ELSE 1) ELSE 0)
 
 Emit ==
-    pc = "done" => PrintT(<<"CASE", ToJson([cmd |-> cmd, mode |-> mode, argv |-> Argv(cmd), place |-> Placement(mode)])>>)
+    pc = "done" => PrintT(<<"CASE", ToJson([cmd |-> cmd, mode |-> mode, via |-> via, argv |-> Argv(cmd), place |-> Placement(mode)])>>)
 =============================================================================
